@@ -1,6 +1,8 @@
 (* C19 — copy_fs / mirror produce exact replicas; conditional copy obeys its rule (model of _copy_is_necessary and of the per-file loop of copy_dir_if; mirror's comparison). *)
+From Coq Require Import Lia.
 From Coq Require Import List NArith ZArith Bool Arith.
-From PyFS Require Import Base.PyStr Copy.CopyCond Copy.CopyCondProofs.
+From PyFS Require Import Base.PyStr Base.Outcome FS.Tree FS.Wf Copy.CopyCond Copy.CopyCondProofs
+     Copy.TreeCopy Copy.TreeCopyProofs.
 Import ListNotations.
 
 Theorem C19_copy_is_necessary_spec :
@@ -94,3 +96,89 @@ Theorem C19_mirror_compare_size_differs :
   forall (n m : Z) (a b : option Z), n <> m -> mirror_compare n m a b = true.
 Proof. exact @mirror_compare_size_differs. Qed.
 Print Assumptions C19_mirror_compare_size_differs.
+
+(* ---- tree level (Copy/TreeCopy*.v): mirror / copy_fs / copy_fs_if between two trees; the destination tree of the real
+   functions is compared with the model on every run ---- *)
+
+Theorem C19_content_eq_equivalence : forall times,
+  (forall a, content_eq times a a) /\
+  (forall a b, content_eq times a b -> content_eq times b a) /\
+  (forall a b c, content_eq times a b -> content_eq times b c -> content_eq times a c).
+Proof. exact @content_eq_equivalence. Qed.
+Print Assumptions C19_content_eq_equivalence.
+
+Theorem C19_mirror_exact_replica : forall pt now src dst, wf src -> wf dst ->
+  exists d', mirror false pt now src dst = Ok d' /\ content_eq pt d' src.
+Proof. exact @mirror_exact_replica. Qed.
+Print Assumptions C19_mirror_exact_replica.
+
+Theorem C19_mirror_newer_replica : forall pt now src dst, wf src -> wf dst ->
+  exists d', mirror true pt now src dst = Ok d' /\
+    (forall p, match lookup src p, lookup d' p with
+               | Some a, Some b => is_dir a = is_dir b | None, None => True | _, _ => False end) /\
+    (forall p data m, lookup src p = Some (File data m) ->
+       lookup d' p = Some (match lookup dst p with
+                           | Some (File data' m') =>
+                             if mirror_compare (size_of data) (size_of data') m m'
+                             then File data (stamp pt now m data (Some (File data' m')))
+                             else File data' m'
+                           | _ => File data (stamp pt now m data None)
+                           end)).
+Proof. exact @mirror_newer_replica. Qed.
+Print Assumptions C19_mirror_newer_replica.
+
+Theorem C19_mirror_newer_keeps_only_settled : forall pt now src dst, wf src -> wf dst ->
+  exists d', mirror true pt now src dst = Ok d' /\
+    forall p data m, lookup src p = Some (File data m) ->
+      (exists t, lookup d' p = Some (File data t)) \/
+      (exists data' a b, m = Some a /\ lookup dst p = Some (File data' (Some b)) /\
+                         List.length data' = List.length data /\ (a <= b)%Z /\
+                         lookup d' p = Some (File data' (Some b))).
+Proof. exact @mirror_newer_keeps_only_settled. Qed.
+Print Assumptions C19_mirror_newer_keeps_only_settled.
+
+Theorem C19_mirror_idempotent : forall cn pt now now2 src dst d1, wf src -> wf dst ->
+  mirror cn pt now src dst = Ok d1 ->
+  (pt = true \/ now2 = now -> mirror cn pt now2 src d1 = Ok d1) /\
+  (exists d2, mirror cn pt now2 src d1 = Ok d2 /\ content_eq false d2 d1).
+Proof. exact @mirror_idempotent. Qed.
+Print Assumptions C19_mirror_idempotent.
+
+Theorem C19_mirror_never_fails : forall cn pt now src dst, wf src -> wf dst ->
+  exists d', mirror cn pt now src dst = Ok d' /\ is_dir d' = true /\ uniq d'.
+Proof. exact @mirror_never_fails. Qed.
+Print Assumptions C19_mirror_never_fails.
+
+Theorem C19_copy_fs_if_rule : forall c pt now src dst d', wf src -> wf dst ->
+  copy_fs_if c pt now src dst = Ok d' ->
+  forall p,
+    match lookup src p with
+    | Some (File data m) =>
+        lookup d' p = if cond_spec c m (dst_state (lookup dst p))
+                      then Some (File data (stamp pt now m data (lookup dst p))) else lookup dst p
+    | Some (Dir _ _) =>
+        exists e', lookup d' p = Some (Dir e' (match lookup dst p with Some (Dir _ dm) => dm | _ => now end))
+    | None => lookup d' p = lookup dst p
+    end.
+Proof. exact @copy_fs_if_rule. Qed.
+Print Assumptions C19_copy_fs_if_rule.
+
+Theorem C19_copy_fs_replica_and_frame : forall pt now src dst d', wf src -> wf dst ->
+  copy_fs pt now src dst = Ok d' ->
+  (forall p data m, lookup src p = Some (File data m) ->
+     lookup d' p = Some (File data (stamp pt now m data (lookup dst p))) /\
+     (pt = true -> lookup d' p = Some (File data m))) /\
+  (forall p se sm, lookup src p = Some (Dir se sm) -> exists e' m', lookup d' p = Some (Dir e' m')) /\
+  (forall p data m, lookup dst p = Some (File data m) ->
+     (forall sd sm, lookup src p <> Some (File sd sm)) -> lookup d' p = Some (File data m)) /\
+  (forall p, lookup src p = None -> lookup d' p = lookup dst p).
+Proof. exact @copy_fs_replica_and_frame. Qed.
+Print Assumptions C19_copy_fs_replica_and_frame.
+
+Theorem C19_copy_fs_if_outcome : forall c pt now src dst, wf src -> wf dst ->
+  (dir_clash src dst /\ copy_fs_if c pt now src dst = Err DirectoryExpected) \/
+  (~ dir_clash src dst /\ file_clash c src dst /\ copy_fs_if c pt now src dst = Err FileExpected) \/
+  (~ dir_clash src dst /\ ~ file_clash c src dst /\
+   exists d', copy_fs_if c pt now src dst = Ok d' /\ is_dir d' = true /\ uniq d').
+Proof. exact @copy_fs_if_outcome. Qed.
+Print Assumptions C19_copy_fs_if_outcome.
